@@ -18,7 +18,9 @@
      string down to "." or "/"; a SymDir that fastwalk refuses to enter is given to the model with an empty
      target.  This rule is spec/WalkLinkSpec.v `unfold` - the trees of a run are computed by it, op 1906 -
      and theorem walk_eq_listing_cyclic ties the model to the listing of that finite unfolding).
-   * errors of the file system (unreadable directory, vanished entry, killed reader) are outside the model.
+   * directories that cannot be read (no permission, path beyond PATH_MAX, removed after being listed) are the
+     subject of model/WalkErrModel.v (fastwalk's second, error-reporting call of the callback); a killed reader and
+     a directory stream that fails half way are outside the model.
    os.PathSeparator = '/', MSYSTEM unset. *)
 From Fzf Require Import Prelude WalkSpec.
 Open Scope Z_scope.
